@@ -29,6 +29,7 @@
 #include <stdlib.h>
 #include <string.h>
 
+#include "compiler.h"
 #include "compression.h"
 #include "log.h"
 #include "zlib.h"
@@ -270,41 +271,67 @@ enum websocket_callback_return binary_frame_received_comp(bool is_compressed, st
 	}
 }
 
-int websocket_compress(const struct websocket *s, uint8_t *dest, uint8_t *src, size_t length)
+/*
+ * Enough room for the deflated form of length bytes including the
+ * trailing 0x00 0x00 0xff 0xff of a sync flush, even for an empty or
+ * incompressible payload.
+ */
+size_t websocket_compress_bound(size_t length)
+{
+	return length * 2 + 64;
+}
+
+int websocket_compress_bounded(const struct websocket *s, uint8_t *dest, size_t dest_size, uint8_t *src, size_t length)
 {
 	if (s->extension_compression.compression_level == 0) {
-		memcpy(dest, src, length);
+		if (unlikely(dest_size < length)) {
+			return -1;
+		}
+		if (length > 0) {
+			memcpy(dest, src, length);
+		}
 		return length;
 	}
 	int ret;
 	z_stream *strm = *(s->extension_compression.strm_comp);
-	unsigned int have;
+	size_t have;
 
 	strm->avail_in = length;
 	strm->next_in = src;
-	strm->avail_out = length * 2;
+	strm->avail_out = dest_size;
 	strm->next_out = dest;
 	if (s->extension_compression.server_no_context_takeover) {
 		ret = deflate(strm, Z_FULL_FLUSH);
 	} else {
 		ret = deflate(strm, Z_SYNC_FLUSH);
 	}
-	if (ret < Z_OK) {
+	if ((ret < Z_OK) && (ret != Z_BUF_ERROR)) {
 		log_err("deflate error: ");
 		print_converted_ret(ret);
 		deflateEnd(strm);
 		return -1;
 	}
-	have = length * 2 - strm->avail_out;
-	if (have < 4) log_err("Deflate not enough space!");
-
-	if (dest[have - 1] != 0xff) log_err("Error remove tail deflate!");
-	if (dest[have - 2] != 0xff) log_err("Error remove tail deflate!");
-	if (dest[have - 3] != 0x00) log_err("Error remove tail deflate!");
-	if (dest[have - 4] != 0x00) log_err("Error remove tail deflate!");
+	if (unlikely((strm->avail_out == 0) || (strm->avail_in != 0))) {
+		/* The output does not fit. Nothing of it may be used, the stream starts over. */
+		log_err("Deflate not enough space!");
+		deflateReset(strm);
+		return -1;
+	}
+	have = dest_size - strm->avail_out;
+	if (unlikely((have < 4) || (dest[have - 1] != 0xff) || (dest[have - 2] != 0xff) || (dest[have - 3] != 0x00) || (dest[have - 4] != 0x00))) {
+		log_err("Error remove tail deflate!");
+		deflateReset(strm);
+		return -1;
+	}
 	have -= 4;
-	return have;
+	return (int)have;
 }
+
+int websocket_compress(const struct websocket *s, uint8_t *dest, uint8_t *src, size_t length)
+{
+	return websocket_compress_bounded(s, dest, length * 2, src, length);
+}
+
 void alloc_compression(struct websocket *ws)
 {
 	if (ws->extension_compression.compression_level == 0) return;
